@@ -348,10 +348,12 @@ class Check:
         rc = 0
         nviol = 0
         lines = []
+        shown_sites = set()
         for site, (_, v) in sorted(by_site.items()):
             kf = [k for k in known if k.get("site") == site]
             if kf:
                 lines.append(f"KNOWN-FINDING: property={self.pid} {site} {kf[0].get('summary','')}")
+                shown_sites.add(site)
                 continue
             nviol += 1
             safe = re.sub(r"[^A-Za-z0-9_.-]+", "_", site)[:80]
@@ -364,9 +366,8 @@ class Check:
             rc = 1
         # every listed (unrepaired) finding of the property is named on every run, also when this run's
         # cases did not happen to reproduce it
-        shown = {l.split(" ", 3)[2] for l in lines if l.startswith("KNOWN-FINDING:")}
         for k in known:
-            if k.get("site") not in shown:
+            if k.get("site") not in shown_sites:
                 lines.append(f"KNOWN-FINDING: property={self.pid} {k.get('site')} {k.get('summary','')} (recorded finding; not reproduced by the cases of this run)")
         for n in self.notes:
             log("note:", n)
